@@ -1,6 +1,6 @@
 (* C42 — property theorems only.  Each is closed by `exact <lemma>` and followed by Print Assumptions. *)
 From Coq Require Import List NArith Bool Arith.
-From Verif.C42 Require Import Model Spec Proofs ProofsApply ProofsFinal ProofsIds Witness.
+From Verif.C42 Require Import Model Spec Proofs ProofsApply ProofsFinal ProofsIds ProofsSpec Witness.
 Import ListNotations.
 Open Scope N_scope.
 
@@ -47,8 +47,10 @@ Print Assumptions c42_completed_sync_is_desired.
    some unit's block (nothing stale); and, when distinct units have distinct ids, the i-th backend of a unit is its
    i-th ready endpoint in the order "ready local ones, then ready remote ones".
    Missing for the full statement: (a) NoDup (map u_id us) is NOT derivable for the pinned code
-   (c42_final_exact_refuted); it is proved for c_reset = true in c42_final_exact below; (b) the identification of the units' frontends with Spec.spec_frontends (kinds, policy flags) is
-   checked by the oracle final_exactb on every correspondence case and in the examples, not proved in general. *)
+   (c42_final_exact_refuted); it is proved for c_reset = true in c42_final_exact below; (b) the units' frontends are identified with Spec.spec_frontends in
+   c42_frontends_exactly_requested / c42_requested_frontend_served below; what stays checked only by the oracle
+   final_exactb (every correspondence case, the examples) is that, in a state where no two services claim the same
+   frontend key, the value stored under a key is the one of the unit found there (uniqueness of keys across units). *)
 Theorem c42_final_exact_partial : forall cfg sy d st v fF fB tr sy' d',
   consistent (fst d) (snd d) -> exec_apply cfg sy d st v fF fB tr = Some (sy', d', false) ->
   exists next us,
@@ -100,6 +102,28 @@ Theorem c42_ids_stay_distinct : forall cfg sy d st v fF fB tr sy' d' err,
     /\ NoDup (map u_id us).
 Proof. exact exec_apply_ids. Qed.
 Print Assumptions c42_ids_stay_distinct.
+
+(* STALE FRONTENDS REMOVED, NONE MISSING: after a completed sync, for every schedule, the frontend map has exactly the
+   keys the services ask for (Spec.spec_frontends: cluster IP, LB IPs, external IPs, node port on every node-port
+   address, per-remote-node node ports under internalTrafficPolicy=Local). *)
+Theorem c42_frontends_exactly_requested : forall cfg sy d st v fF fB tr sy' d',
+  consistent (fst d) (snd d) -> exec_apply cfg sy d st v fF fB tr = Some (sy', d', false) ->
+  forall k, lookup fkey_eqb (fst d') k <> None <->
+            exists s eps kd, In (s, eps) st /\ In (k, kd) (spec_frontends (c_npips cfg) s eps).
+Proof. exact frontend_keys_exact. Qed.
+Print Assumptions c42_frontends_exactly_requested.
+
+(* every requested frontend is a frontend of an applySvc unit whose ready endpoints are exactly the ones the frontend
+   must list (all of the service's, or those on the remote node), with the service's affinity and with the
+   local-only flags the traffic policy requires (external-local on node ports and LB IPs iff
+   externalTrafficPolicy=Local, never on the cluster IP; internal-local on the cluster IP iff
+   internalTrafficPolicy=Local); the maglev flag only on maglev services *)
+Theorem c42_requested_frontend_served : forall npips prev st v next next' us s eps k kd,
+  visit_valid st v = true -> visit_all prev next st v = Some (next', us) ->
+  In (s, eps) st -> In (k, kd) (spec_frontends npips s eps) ->
+  exists u fv, In u us /\ In (k, fv) (unit_frontends npips u) /\ value_meets_spec kd s eps u fv.
+Proof. exact units_cover_spec. Qed.
+Print Assumptions c42_requested_frontend_served.
 
 (* the order used for a unit's backends lists exactly the ready endpoints (as a multiset), local ones first *)
 Theorem c42_ready_local_first : forall eps,
